@@ -87,6 +87,9 @@ type Interp struct {
 	Stats Stats
 	// CheckMBounds etc. can be switched off by callers that only need the trace.
 	Monitors bool
+	// Judge names the property whose check is running ("" = both abort).
+	Judge string
+	Other []Violation
 	curLine   uint32
 	curFunc   string
 	stack     []string
@@ -129,6 +132,15 @@ func (in *Interp) Drop() {
 
 func (in *Interp) violate(prop, kind, format string, args ...any) {
 	v := Violation{Prop: prop, Kind: kind, Msg: fmt.Sprintf(format, args...), Func: in.curFunc, Line: in.curLine}
+	if in.Judge == "C01" && prop == "C02" {
+		// The C01 check judges safety only: a false fact is recorded for the
+		// statistics (C02's own check judges it) and execution goes on, so
+		// that the unsafe access the false fact allows is reached and seen.
+		if len(in.Other) < 8 {
+			in.Other = append(in.Other, v)
+		}
+		return
+	}
 	in.Viol = append(in.Viol, v)
 	panic(&abortSignal{reason: v.String()})
 }
